@@ -142,17 +142,25 @@ Print Assumptions C19_memmap_old_order_rule_refuted.
 (* ArrayMemmapForwardReducer.__call__ (eligibility test translated, whichever dtype attribute it consults): an array
    without a backing memmap is dumped to a temporary memmap iff its dtype has no object (dtype.hasobject), a threshold is set and nbytes is STRICTLY above it; an array
    backed by a memmap is always re-mapped *)
-Theorem C19_auto_memmap_threshold : forall has_backing hasobject dtype_kind max_nbytes nbytes,
-  exists rt, forward_route has_backing hasobject dtype_kind max_nbytes nbytes = Ok rt /\
+Theorem C19_auto_memmap_threshold : forall has_backing hasobject dtype_kind max_nbytes mmap_mode nbytes,
+  exists rt, forward_route has_backing hasobject dtype_kind max_nbytes mmap_mode nbytes = Ok rt /\
   (rt = RReduceBacked <-> has_backing = true) /\
-  (rt = RDumpTemp <-> has_backing = false /\ hasobject = false /\ exists t, max_nbytes = Some t /\ t < nbytes).
+  (rt = RDumpTemp <-> has_backing = false /\ hasobject = false /\ mmap_mode <> None /\
+                      exists t, max_nbytes = Some t /\ t < nbytes).
 Proof. exact forward_route_spec. Qed.
 Print Assumptions C19_auto_memmap_threshold.
 
+(* mmap_mode=None is documented as "None will disable memmapping" (finding F52, fixed in /repo): the array is pickled
+   in the ordinary way whatever its size and the threshold -- the worker gets an in-memory copy *)
+Theorem C19_mmap_mode_none_disables_memmapping : forall hasobject dtype_kind max_nbytes nbytes,
+  forward_route false hasobject dtype_kind max_nbytes None nbytes = Ok RPickle.
+Proof. exact mmap_mode_none_pickles. Qed.
+Print Assumptions C19_mmap_mode_none_disables_memmapping.
+
 (* "object dtype" is numpy's hasobject, not kind == 'O': a structured dtype (kind 'V') with an object field at
    any depth is pickled whatever its size and the threshold -- a dumped file of it could not be memory-mapped *)
-Theorem C19_object_field_never_memmapped : forall max_nbytes nbytes,
-  forward_route false true 86 max_nbytes nbytes = Ok RPickle.
+Theorem C19_object_field_never_memmapped : forall max_nbytes mmap_mode nbytes,
+  forward_route false true 86 max_nbytes mmap_mode nbytes = Ok RPickle.
 Proof. exact object_field_never_memmapped. Qed.
 Print Assumptions C19_object_field_never_memmapped.
 
